@@ -305,7 +305,7 @@ def rule_defer(ctx):
             if len(gens) == 1:
                 last = gens[0].generators[-1]
                 ok3 = [norm(i) for i in last.ifs] == [f'{norm(last.target)}[0] not in {g.params[2]}']
-        zp = [s for s in g.own_nodes() if isinstance(s, ast.Assign) and f'zip({pvn}, {resn})' in norm(s.value)]
+        zp = [s for s in g.own_nodes() if isinstance(s, ast.Call) and norm(s) == f'zip({pvn}, {resn})']
         ok3 = ok3 and len(zp) == 1
     ctx.check(ok3, 'C09.DEFER', ctx.key(g, None, 'lookups aligned'),
               'only prevouts whose parent is not in the listing are looked up, and results are matched back position by position',
